@@ -204,9 +204,9 @@ pub fn build(quick: bool) -> PropRun {
         }));
     }
     // (b) sender half: link-world executions with the wire-level allocation ledger
-    let mut scs = Vec::new();
     use crate::lwprops::*;
     use uflow::SendMode::*;
+    let mut scs: Vec<Scenario> = crate::pool::lw_pool(quick).into_iter().map(|mut s| { s.oracles = O_C06B; s.tag = format!("C06.pool.{}", s.tag); lw_scenario(s) }).collect();
     let scripts: Vec<(&str, Vec<Op>, LwCfg)> = vec![
         ("alloc-3-fragments", (0..6).map(|i| send(i / 3, 0, (i % 2) as u8, if i % 2 == 0 { Reliable } else { Unreliable }, [2000, 1448, 1449, 100, 2897, 1][i])).collect(), LwCfg { pwin: 8, fwin: 8, rx_alloc: [3 * FRAG, 3 * FRAG], ..LwCfg::small() }),
         ("alloc-1-fragment", (0..5).map(|i| send(0, 0, 0, MODES[i % 4], [1448, 700, 748, 1, 1447][i])).collect(), LwCfg { pwin: 8, fwin: 8, rx_alloc: [1, 1], ..LwCfg::small() }),
